@@ -207,11 +207,12 @@ fn run_filters(
             return;
         }
     };
-    let magic = pcap_in.get_magic_number_raw();
+    // The output stream carries the same global header as the input stream
+    let header_in = pcap_in.header.borrow().clone();
     let pcap_out = if skip_pcap {
         None
     } else {
-        let out = match Pcap::new_with_magic(Rc::new(FileHandle::Stdout), magic) {
+        let out = match Pcap::new_with_header(Rc::new(FileHandle::Stdout), header_in) {
             Ok(pcap) => pcap,
             Err(err) => {
                 eprintln!("{}", err);
